@@ -85,10 +85,11 @@ def showGroup (g : Group) : String :=
   s!"{g.gid}:{bit g.deleted}:" ++ "+".intercalate (g.shards.map fun s => s!"{s.sid}.{bit s.mine}.{bit s.marked}")
 
 def dump (σ : St) : String :=
-  s!"d={σ.metaDur} eng=[{showEng σ.eng}] cat=[{";".intercalate (σ.cat.map showGroup)}] pend=[{joinNat (sortNat σ.pending)}]"
+  s!"d={σ.metaDur} eng=[{showEng σ.eng}] disk=[{joinNat (sortNat σ.disk)}] cat=[{";".intercalate (σ.cat.map showGroup)}] pend=[{joinNat (sortNat σ.pending)}]"
 
 def showDelRes : DelRes → String
   | .ok => "ok" | .notFound => "nf" | .failed => "fail" | .timedOut => "tmo" | .stillPending => "pend"
+  | .closedErr => "closed"
 
 /-- the calls one `proc` step makes, as the harness records them. -/
 def procLog (o : Outcome) (q : QItem) (σ : St) : String :=
